@@ -171,3 +171,51 @@ NOT_YET.update({
     "C13": "mutex half proved (Props/C13Mu.lean, checked inside C02's lockstep); cv / wait_n half depends on the Cv and WaitN layers; not claimed until both halves have a check",
     "C19": "counter half proved (Props/C19Counter.lean); note half depends on the Note layer",
 })
+
+CV = "NsyncVerif.Cv."
+PROPS["C04"] = {
+    "imports": ["NsyncVerif.Props.C04"],
+    "theorems": [CV + t for t in ["C04_queue_inv", "C04_spinlock_excl", "C04_wait_atomic", "C04_unlink_once_partial", "C04_remove_count_handshake",
+                 "C04_unlink_once_full_false", "C04_outcome_partial", "C04_exitUnl_is_unl", "C04_signal", "C04_broadcast", "C04_broadcast_unlinks_all", "C04_no_lost_wake"]],
+    "layers": ["cv", "mux"],
+    "oracles": {"swallowed-wakeup", "stuck", "steplimit", "early-timeout", "bad-cancel", "bad-result", "panic", "crash"},
+    "plan": {"quick": [("cv", 120, 8), ("cv_raw", 60, 8), ("cv_rsignal", 60, 8), ("waitn_cv", 80, 8)],
+             "thorough": [("cv", 1200, 16), ("cv_raw", 600, 16), ("cv_rsignal", 600, 16), ("waitn_cv", 800, 16)]},
+    "extra_corpus": [],
+    "level_text": "Kernel-checked theorems over the Cv model (cv.c and sem_wait.c statement by statement: cv word, queue, pooled waiter records with remove_count and bare nsync_waiter_s records of nsync_wait_n, private to-wake lists, transfer to the mutex queue; any number of threads; both semaphore flavours): queue/non-empty-bit invariant, spinlock exclusion, enqueue-before-release (wait is atomic w.r.t. wakers), signal unlinks the first waiter and, if it is a reader, every reader plus at most one other, broadcast unlinks every waiter enqueued before its first load, an unlinked record is woken (flag cleared and semaphore posted) or its waker is still in flight (no lost wake-up), the remove_count handshake, and a wait returns non-zero only if it unlinked ITSELF while a waker-unlinked wait returns 0 — the last two for pooled (nsync_cv_wait*) records. Tied to the code by lockstep replay of the cv / cv_raw / cv_rsignal / waitn_cv families through the Cv acceptor.",
+    "level_note": "C04_unlink_once / C04_outcome are FALSE on the current code for nsync_wait_n records (known finding F3): the full statement is kept as a def, its negation is proved on a concrete accepted trace (C04_unlink_once_full_false), the proved theorems carry the hypothesis 'pooled record', and the check prints KNOWN-FINDING for the executions in which the Cv acceptor's ghost flag shows a record unlinked twice. Transferred waiters are handed to the mutex queue (C02). The mutex is abstract in this layer. Fair termination is a paper step.",
+}
+PROPS["C08"] = {
+    "imports": ["NsyncVerif.Props.C08"],
+    "theorems": ["Note." + t for t in ["C08_flag_monotone", "C08_flag_monotone_run", "C08_notified_monotone", "C08_monotone", "C08_observed_notified", "C08_anc_ever",
+                 "C08_sound", "C08_notify_post", "C08_expiry_min_partial", "C08_expiry_min_witness", "C08_complete_witness", "C08_complete_partial",
+                 "C08_stack_notified", "C08_unaffected_partial", "C08_ancestors_unaffected"]],
+    "layers": ["note", "mux"],
+    "oracles": {"stuck", "expiry-min", "notify-post", "note-wait", "early-timeout", "panic", "crash", "dead-object"},
+    "plan": {"quick": [("note", 150, 8), ("note_f4", 10, 8)], "thorough": [("note", 1500, 16), ("note_f4", 60, 16)]},
+    "harness_args": ["checkplain=1"],
+    "level_text": "Kernel-checked theorems over the Note model (note.c and the wait path of nsync_note_wait statement by statement on a forest with parent/children/disconnecting/waiters, note mutexes abstract; unbounded notes, threads, depth, steps): the flag and the API-level 'notified' are one-way, every observer history is monotone, a notified note has a cause (notify called or a deadline passed on itself or an ancestor-at-some-time), notify's post-condition, ancestors are never affected, everything on a notifier's recursion stack is notified. Tied to the code by lockstep replay including a digest of the REAL note forest after every note API return, which the model must reproduce.",
+    "level_note": "Two clauses are FALSE on the current code and carried as known findings with Lean witnesses and harness replays: completeness (F4: a free of a note with children concurrent with a notification of an ancestor — C08_complete_partial holds for executions without such an adoption under a notified parent; negation proved on a concrete trace) and nsync_note_expiry = minimum (F5: notes born notified — C08_expiry_min_partial under 'not born notified'). C08_unaffected is proved w.r.t. the creation-time path (partial; the current-tree statement is kept as a def). The waiter-release half of completeness for descendants is not proved. Monotone clock assumed.",
+}
+PROPS["C09"] = {
+    "imports": ["NsyncVerif.Props.C09"],
+    "theorems": ["Note." + t for t in ["C09_holds_iff", "C09_lock_order", "C09_no_lock_cycle", "C09_adoption", "C09_adoption_root", "C09_free_leaves_no_child",
+                 "C09_no_use_after_free_witness", "C09_no_use_after_free_partial", "C09_free_is_exclusive", "C09_no_stuck_state_witness", "C09_no_stuck_state_partial"]],
+    "layers": ["note", "mux"],
+    "oracles": {"stuck", "dead-object", "dead-stack", "panic", "crash"},
+    "plan": {"quick": [("note", 150, 8), ("note_f4", 10, 8), ("note_f7", 10, 8)], "thorough": [("note", 1500, 16), ("note_f4", 60, 16), ("note_f7", 60, 16)]},
+    "harness_args": ["checkplain=1"],
+    "extra_corpus": ["C08"],
+    "level_text": "Kernel-checked theorems over the Note model: the lock discipline (a thread waiting for a note's mutex holds only mutexes of notes strictly above it in creation order: C09_lock_order, hence no cycle of lock waits: C09_no_lock_cycle), adoption (when free returns, every non-disconnecting former child has the former parent as parent and is in its children list; nothing is left behind), free is exclusive, and the argument of a call in progress is never a freed note. Tied to the code by lockstep replay with forest digests and the dead-object oracle (every atomic and plain access of the real code is checked against reclaimed notes).",
+    "level_note": "Two statements are FALSE on the current code and carried as known findings with Lean witnesses and harness replays: no-use-after-free for the PARENT of a note that two threads disconnect concurrently (F7, new: C09_no_use_after_free_partial covers the call's own argument) and no-stuck-state (F4). Deadlock freedom is proved as absence of lock-wait cycles (partial: the WAIT_FOR_NO_CHILDREN sleepers are exactly what F4 strands).",
+}
+PROPS["C19"] = {
+    "imports": ["NsyncVerif.Props.C19Note", "NsyncVerif.Props.C19Counter"],
+    "theorems": ["Note.C19_note_new_fail", "Note.C19_parent_usable", "Counter.C19_counter_new_fail", "Counter.C19_counter_new_fail_no_access", "Counter.C19_counter_new_ok",
+                 "Counter.Driver.C19_driver_new_fail"],
+    "layers": ["note", "counter"],
+    "oracles": {"crash", "panic", "dead-object", "stuck"},
+    "plan": {"quick": [("alloc_fail", 120, 6)], "thorough": [("alloc_fail", 1200, 12)]},
+    "level_text": "Kernel-checked theorems over the Note and Counter models: on the malloc-NULL path nsync_note_new / nsync_counter_new return NULL after zero further operations, the state of every existing object — in particular the intended parent — is exactly unchanged (s3 = s), and every continuation therefore runs identically (C19_parent_usable). Tied to the code by lockstep: scenarios that build small note trees and counters with the harness's fail-the-k-th-allocation switch failing each constructor allocation in turn (the forest digest before = after; the acceptors take the NULL branch).",
+    "level_note": "Only the constructors' allocations are in scope (the property's quantifier): the waiter pool's unchecked malloc in common.c and nsync_wait_n's unchecked malloc for more than 4 objects are outside C19; scenarios in which the failed allocation is one of those are generated with the failure index restricted to constructor allocations.",
+}
